@@ -28,7 +28,7 @@ Not decided: equality of the loaded objects with the dumped ones.
 import ast
 
 from ..model import walk_no_nested, norm, call_name, is_self_attr
-from ..facts import FuncFacts, facts_at
+from ..facts import FuncFacts, facts_at, count_paths
 from ..report import Ctx, AnalysisError
 from ..flow import bound_arg, local_defs, resolve_local
 from .. import apirules
@@ -293,6 +293,41 @@ def check(ctx: Ctx):
     ok = "default_route = loaded['routes']['default']" in t and "routes[a1, a2] = a1_routes[a2]" in t
     ctx.check(ok, "R-AGENTS", "routes: default and per-pair costs read", ba, ba.node, "")
 
+    # every listed route / hosting cost is stored: the store is reached exactly once on every non-raising pass of its loop body
+    for txt, what in (("routes[a1, a2]", "route"), ("hosting_costs[a, c]", "hosting cost")):
+        st = [a for a in ast.walk(ba.node) if isinstance(a, ast.Assign) and norm(a.targets[0]) == txt]
+        okk = len(st) == 1
+        if okk:
+            lp = next((l for l in ast.walk(ba.node) if isinstance(l, ast.For) and any(x is st[0] for x in ast.walk(l))
+                       and not any(isinstance(i, ast.For) and i is not l and any(x is st[0] for x in ast.walk(i)) for i in ast.walk(l))), None)
+            okk = lp is not None
+            if okk:
+                k = count_paths(lp.body, lambda s_: 1 if s_ is st[0] else 0).k
+                okk = k.get("fall") == (1, 1) and "continue" not in k and "break" not in k and "return" not in k
+        ctx.check(okk, "R-AGENTS", f"every listed {what} is stored (no pass of the loop skips the store)", ba, st[0] if st else ba.node,
+                  f"a {what} that is listed in the file must reach the table whatever its value: skipping one (e.g. because it equals a default that may be read later in the same loop) "
+                  "makes the loaded agent answer with the default")
+    # ---- absent key <=> None: a key the loader defaults to None when absent is omitted by the dumper exactly when the value is None
+    none_keys = {}
+    for lf_ in ("_build_variables",):
+        f_ = repo.func(Y, lf_)
+        for a in ast.walk(f_.node):
+            if isinstance(a, ast.Assign) and isinstance(a.value, ast.IfExp) and isinstance(a.value.orelse, ast.Constant) and a.value.orelse.value is None and isinstance(a.value.body, ast.Subscript) \
+                    and isinstance(a.value.body.slice, ast.Constant) and norm(a.value.test) == f"{a.value.body.slice.value!r} in {norm(a.value.body.value)}":
+                none_keys[a.value.body.slice.value] = a
+    n_none = 0
+    for fn in ("_yaml_variables",):
+        f_ = repo.func(Y, fn)
+        ff_ = FuncFacts(f_.node)
+        for a in ast.walk(f_.node):
+            if isinstance(a, ast.Assign) and isinstance(a.targets[0], ast.Subscript) and isinstance(a.targets[0].slice, ast.Constant) and a.targets[0].slice.value in none_keys:
+                n_none += 1
+                e = norm(a.value)
+                fs = {(norm(t_), p_) for t_, p_ in facts_at(ff_, a)}
+                ctx.check((f"{e} is not None", True) in fs or (f"{e} is None", False) in fs, "R-EMIT", f"`{a.targets[0].slice.value}` is written whenever it is not None", f_, a,
+                          f"the loader gives None when the key is absent, so the key may be omitted only for None: a truthiness guard also drops 0, False and '' (legal domain values), which come back as None")
+    ctx.check(n_none >= 1 and "initial_value" in none_keys, "R-EMIT", "keys defaulting to None on load are recognised on both sides", bd if False else repo.func(Y, "_yaml_variables"), repo.func(Y, "_yaml_variables").node, f"none-default keys {sorted(none_keys)}, emissions {n_none}")
+
     # ---- scalar guards -----------------------------------------------------------------------------
     bd = repo.func(Y, "_build_domains")
     ctx.touch(bd)
@@ -313,6 +348,8 @@ def check(ctx: Ctx):
 _Y = "pydcop/dcop/yamldcop.py"
 _R = "pydcop/dcop/relations.py"
 VARIANTS = [
+    ("route_equal_to_default_skipped", _Y, "                if (a2, a1) in routes or (a1, a2) in routes:\n", "                if a1_routes[a2] == default_route:\n                    continue\n                if (a2, a1) in routes or (a1, a2) in routes:\n", "break", "R-AGENTS"),
+    ("initial_value_truthiness", _Y, "        if v.initial_value is not None:\n", "        if v.initial_value:\n", "break", "R-EMIT"),
     ("domain_value_case_insensitive", "pydcop/dcop/objects.py", "            if str(v) == val:\n                return i, v", "            if str(v).lower() == val.lower():\n                return i, v", "break", "R-MATRIX"),
     ("domain_value_mirrored", "pydcop/dcop/objects.py", "            if str(v) == val:\n                return i, v", "            if val == str(v):\n                return i, v", "neutral"),
     ("main_dir_last_file", "pydcop/dcop/yamldcop.py", "        if main_dir is None:\n            main_dir = p.parent\n", "        main_dir = p.parent\n", "break", "R-STRFIRST"),
